@@ -96,7 +96,7 @@ DecText(v) ==
   LET sign == IF v.neg THEN <<MINUS>> ELSE <<>>
       dt == DigitsText(v.d)
       n == Len(dt) IN
-  IF v.exp >= 0 THEN sign \o dt \o DigitsText(Zeros(v.exp))
+  IF v.exp >= 0 THEN (IF IsZeroD(v.d) THEN sign \o <<D0>> ELSE sign \o dt \o DigitsText(Zeros(v.exp)))
   ELSE LET f == 0 - v.exp IN
        IF n > f THEN sign \o SubSeq(dt, 1, n - f) \o <<DOT>> \o SubSeq(dt, n - f + 1, n)
        ELSE sign \o <<D0, DOT>> \o DigitsText(Zeros(f - n)) \o dt
